@@ -94,7 +94,7 @@ def body(ctx, lead_of):
     drv = ctx.build_go("c08")
 
     # ---- 2a. TLC as generator (the same run prints the alphabet with the design verdicts: spec side and driver side must agree)
-    ngen = ctx.pick(220, 2200)
+    ngen = ctx.pick(220, 1900)
     gen, _ = ctx.tlc_gen("MC_PeerInputGen", "MC_PeerInputGen.cfg", simulate=ngen, depth=16, timeout=1200)
     hdr = [x for x in gen if "classes" in x]
     if not hdr:
